@@ -16,6 +16,7 @@ import (
 	"os/signal"
 	"path/filepath"
 	"regexp"
+	"runtime/pprof"
 	"sort"
 	"strconv"
 	"strings"
@@ -30,6 +31,14 @@ import (
 )
 
 const repoMod = "github.com/google/inverting-proxy"
+
+// defaultInit: packages whose var initialisers are interpreted at the start of
+// every path (a run may add more, or remove one with "-pkg"). Reading a
+// package-level variable of any other package that has an initialiser ends the
+// path as unsupported, never with a silent zero value.
+var defaultInit = []string{"io", "errors", "strings", "strconv", "bytes", "unicode/utf8", "context", "net/http", "net/textproto", "net/url",
+	"vendor/golang.org/x/net/http/httpguts", "encoding/hex", "encoding/base64", "io/fs", "os", "syscall", "internal/oserror", "internal/poll", "math/rand",
+	"github.com/gorilla/websocket", "container/list", "sort", "path", "net/http/internal", "net/http/internal/ascii", "mime", "bufio", "net", "sync", "time"}
 
 var (
 	verifDir = envOr("VERIF_DIR", "/verif")
@@ -131,9 +140,33 @@ func main() {
 	if len(os.Args) < 2 {
 		usage()
 	}
+	if pf := os.Getenv("GOSYM_CPUPROFILE"); pf != "" {
+		f, _ := os.Create(pf)
+		pprof.StartCPUProfile(f)
+		defer pprof.StopCPUProfile()
+	}
 	switch os.Args[1] {
 	case "run":
-		os.Exit(cmdRun(os.Args[2:]))
+		if os.Getenv("GOSYM_HOTSPOTS") != "" {
+			hotspots = map[string]int{}
+		}
+		rc := cmdRun(os.Args[2:])
+		if hotspots != nil {
+			type kv struct {
+				k string
+				v int
+			}
+			var l []kv
+			for k, v := range hotspots {
+				l = append(l, kv{k, v})
+			}
+			sort.Slice(l, func(i, j int) bool { return l[i].v > l[j].v })
+			for i := 0; i < len(l) && i < 40; i++ {
+				fmt.Fprintf(os.Stderr, "one-sided decisions %7d  %s\n", l[i].v, l[i].k)
+			}
+		}
+		pprof.StopCPUProfile()
+		os.Exit(rc)
 	case "replay":
 		os.Exit(cmdReplay(os.Args[2:]))
 	case "list":
@@ -374,9 +407,16 @@ func cmdRun(args []string) int {
 			continue
 		}
 		say("run=%s paths=%d done=%d findings=%d complete=%v wall=%.1fs load=%.1fs ends=%v", run.Name, res.Paths, res.Done, len(res.Findings), res.Complete, res.Wall, res.Load, compactEnds(res.Ends))
+		if !res.Complete {
+			say("INCOMPLETE run=%s: %s %s", run.Name, res.StopReason, detailEnds(res.Ends))
+		}
+		if res.Done == 0 && len(res.Findings) == 0 {
+			say("NOTHING-EXPLORED run=%s: no path completed; this is a machinery problem, not a verdict", run.Name)
+			vacuous++
+		}
 		// vacuity
 		for _, c := range run.Covers {
-			if !res.Covers[c] && res.Complete {
+			if !res.Covers[c] {
 				say("VACUOUS run=%s cover point %q was not reached on any feasible path", run.Name, c)
 				vacuous++
 			}
@@ -474,6 +514,20 @@ func cmdRun(args []string) int {
 	}
 	say("property=%s tier=%s violations=%d known=%d unconfirmed=%d inconclusive=%d exit=%d wall=%.1fs", id, *tier, violations, knownHits, unconfirmed, inconclusive, exit, wall)
 	return exit
+}
+
+func detailEnds(m map[string]int) string {
+	var ks []string
+	for k := range m {
+		if strings.HasPrefix(k, "unsupported: ") || strings.HasPrefix(k, "truncated: ") || strings.HasPrefix(k, "engine-error: ") {
+			ks = append(ks, fmt.Sprintf("[%s x%d]", k, m[k]))
+		}
+	}
+	sort.Strings(ks)
+	if len(ks) > 6 {
+		ks = ks[:6]
+	}
+	return strings.Join(ks, " ")
 }
 
 func compactEnds(m map[string]int) string {
@@ -666,8 +720,15 @@ func newEngine(prog *ssa.Program, run *RunSpec, ts *TierSpec, knownIDs map[strin
 	if ts.MaxSteps > 0 {
 		e.maxSteps = ts.MaxSteps
 	}
-	for _, p := range run.Init {
+	for _, p := range defaultInit {
 		e.initAllow[p] = true
+	}
+	for _, p := range run.Init {
+		if strings.HasPrefix(p, "-") {
+			delete(e.initAllow, p[1:])
+		} else {
+			e.initAllow[p] = true
+		}
 	}
 	e.params = ts.Params
 	e.knownIDs = knownIDs
